@@ -103,9 +103,11 @@ type jDump struct {
 }
 
 // dumpDirs asks the hook binary for the dump of each directory.
-func dumpDirs(dirs []string) ([]*jDump, error) {
+func dumpDirs(dirs []string) ([]*jDump, error) { return dumpDirsT(dirs, 8*time.Minute) }
+
+func dumpDirsT(dirs []string, limit time.Duration) ([]*jDump, error) {
 	args := append([]string{"dump"}, dirs...)
-	r := run(verifDir, 20*time.Minute, nil, loxverif, args...)
+	r := run(verifDir, limit, nil, loxverif, args...)
 	if r.Code != 0 {
 		return nil, fmt.Errorf("loxverif dump failed (code %d): %s", r.Code, lastLines(string(r.Err), 5))
 	}
@@ -135,7 +137,7 @@ func hookJSON[Q any, A any](sub string, reqs []Q) ([]A, error) {
 	for _, q := range reqs {
 		enc.Encode(q)
 	}
-	r := run(verifDir, 20*time.Minute, in.Bytes(), loxverif, sub)
+	r := run(verifDir, 8*time.Minute, in.Bytes(), loxverif, sub)
 	if r.Code != 0 {
 		return nil, fmt.Errorf("loxverif %s failed (code %d): %s", sub, r.Code, lastLines(string(r.Err), 5))
 	}
